@@ -169,6 +169,7 @@ func (t *Torrent) markPieceComplete(pi int) error {
 	}
 	t.pieces[pi].markComplete()
 	t.numComplete.Inc()
+	verifPoint("piece.marked")
 	return nil
 }
 
